@@ -39,6 +39,12 @@ type file struct {
 	Mtime    int64
 	Repos    []repo
 	Meta     bool // simple shards only: also write a .meta sidecar
+	// Sidecar: 0 = as above (a compound shard's repositories are given by its .meta sidecar over a template shard);
+	// 1 = the repositories are embedded in the shard itself (a compound shard really built by index.Merge from these
+	//     repositories, all alive, commit date 0) and there is no sidecar;
+	// 2 = like 1 (for simple shards: like Meta=false) plus a ZERO-LENGTH sidecar — what a crash between writing and
+	//     syncing the sidecar leaves; the shard reader ignores an empty sidecar and uses the embedded metadata
+	Sidecar int `json:",omitempty"`
 }
 
 type dirState struct {
@@ -142,8 +148,53 @@ func metaJSON(path string, rs []repo) []byte {
 	return b
 }
 
+var mergedCache = map[string][]byte{}
+
+// mergedBytes: a real compound shard of exactly these repositories (index.Merge over real simple shards), cached
+func mergedBytes(rs []repo, scratch string) []byte {
+	key := ""
+	for _, r := range rs {
+		key += fmt.Sprintf("%d.%d/", r.ID, r.Name)
+	}
+	if b, ok := mergedCache[key]; ok {
+		return b
+	}
+	dir, err := os.MkdirTemp(scratch, "merge")
+	must(err)
+	defer os.RemoveAll(dir)
+	var files []index.IndexFile
+	for i, r := range rs {
+		p := filepath.Join(dir, fmt.Sprintf("m%d.zoekt", i))
+		must(os.WriteFile(p, simpleBytes(r.ID, r.Name, scratch), 0o644))
+		f, err := os.Open(p)
+		must(err)
+		inf, err := index.NewIndexFile(f)
+		must(err)
+		defer inf.Close()
+		files = append(files, inf)
+	}
+	tmp, _, err := index.Merge(dir, files...)
+	must(err)
+	b, err := os.ReadFile(tmp)
+	must(err)
+	mergedCache[key] = b
+	return b
+}
+
 func writeFile(dir string, f file, scratch string) {
 	p := filepath.Join(dir, baseName(f))
+	if f.Sidecar > 0 {
+		if f.Compound {
+			must(os.WriteFile(p, mergedBytes(f.Repos, scratch), 0o644))
+		} else {
+			must(os.WriteFile(p, simpleBytes(f.Repos[0].ID, f.Repos[0].Name, scratch), 0o644))
+		}
+		if f.Sidecar == 2 {
+			must(os.WriteFile(p+".meta", nil, 0o644))
+		}
+		must(os.Chtimes(p, tm(f.Mtime), tm(f.Mtime)))
+		return
+	}
 	if f.Compound {
 		must(os.WriteFile(p, template(len(f.Repos), scratch), 0o644))
 		must(os.WriteFile(p+".meta", metaJSON(p, f.Repos), 0o644))
@@ -194,7 +245,7 @@ func materialise(root string, s dirState, scratch string) {
 // applyEvent performs what another component of the server does to the index directory; it reports whether anything
 // changed. Sidecar rewrites go through the real writers (index.SetTombstone / UnsetTombstone) or, for renames, write the
 // .meta the way mergeMeta does (temp file + rename); the .zoekt file is never touched, so its size and mtime stay.
-func applyEvent(root string, ev event, scratch string) bool {
+func applyEvent(root string, ev event, scratch string, embedded map[int]bool) bool {
 	cur, _ := readFiles(root)
 	changed := false
 	switch ev.Kind {
@@ -259,6 +310,19 @@ func applyEvent(root string, ev event, scratch string) bool {
 			changed = true
 			if ev.One {
 				break
+			}
+		}
+	case "truncmeta":
+		for _, f := range cur {
+			if f.Compound && !embedded[f.Key] {
+				continue // template shard: its sidecar is what defines the repositories
+			}
+			for _, rp := range f.Repos {
+				if rp.ID == ev.ID {
+					must(os.WriteFile(filepath.Join(root, baseName(f))+".meta", nil, 0o644))
+					changed = true
+					break
+				}
 			}
 		}
 	case "leftover":
@@ -566,6 +630,8 @@ type step struct {
 //	tomb / untomb   SetTombstone / UnsetTombstone of ID in the compound shards, by another writer of the sidecar
 //	rename   mergeMeta: the .meta of the shards of ID gets a new repository name (all of them, or only the first)
 //	rmshard  the indexer removed the simple shards of ID
+//	truncmeta a crash between writing and syncing the sidecar: the .meta of the shards listing ID (shards whose repositories
+//	         are embedded in the shard itself only) is left with length zero; the reader then uses the embedded metadata
 //	leftover a writer of the sidecar or of the shard of ID was killed: its temporary file (name kind N) stays next to every
 //	         shard listing ID
 //	scan     listIndexed (the same process scans the directory, as the server loop does before every cleanup)
@@ -590,7 +656,11 @@ func genScenario(r *gen.Rand) scenario {
 	ckey := 0
 	// a simple shard's basename is a function of the repository *name* and the shard number, as in zoekt
 	simple := func(id, name, n int, mtime int64) file {
-		return file{Key: name*10 + n, Mtime: mtime, Repos: []repo{{ID: id, Name: name}}, Meta: r.Chance(1, 3)}
+		f := file{Key: name*10 + n, Mtime: mtime, Repos: []repo{{ID: id, Name: name}}, Meta: r.Chance(1, 3)}
+		if !f.Meta && r.Chance(1, 5) {
+			f.Sidecar = 2 // empty sidecar next to a simple shard
+		}
+		return f
 	}
 	has := func(fs []file, k int) bool {
 		for _, f := range fs {
@@ -626,6 +696,12 @@ func genScenario(r *gen.Rand) scenario {
 				nm = id + 10
 			}
 			f.Repos = append(f.Repos, repo{ID: id, Name: nm, Tomb: r.Chance(3, 10), Date: int64(r.Range(0, 50))})
+		}
+		if r.Chance(1, 3) && len(f.Repos) > 0 { // a compound shard as the merger left it: no sidecar, or an empty one after a crash
+			f.Sidecar = r.Range(1, 2)
+			for i := range f.Repos {
+				f.Repos[i].Tomb, f.Repos[i].Date = false, 0
+			}
 		}
 		sc.Init.Index = append(sc.Init.Index, f)
 	}
@@ -691,8 +767,11 @@ func genEvent(r *gen.Rand, id, n int) event {
 	case 6, 7:
 		return event{Kind: "rename", ID: id, NewName: id + 10, One: r.Bool()}
 	case 8:
-		if r.Bool() {
+		switch r.Intn(3) {
+		case 0:
 			return event{Kind: "leftover", ID: id, N: r.Intn(8)}
+		case 1:
+			return event{Kind: "truncmeta", ID: id}
 		}
 		return event{Kind: "rmshard", ID: id}
 	}
@@ -717,6 +796,11 @@ func genLifecycle(r *gen.Rand) scenario {
 	}
 	if r.Chance(1, 3) { // a member that is already dead in the shard
 		c.Repos[len(c.Repos)-1].Tomb = true
+	} else if r.Chance(1, 2) { // the shard as the merger left it: no sidecar, or an empty one after a crash
+		c.Sidecar = r.Range(1, 2)
+		for i := range c.Repos {
+			c.Repos[i].Date = 0
+		}
 	}
 	sc.Init.Index = append(sc.Init.Index, c)
 	for id := members + 1; id <= nids; id++ {
@@ -746,6 +830,7 @@ func genLifecycle(r *gen.Rand) scenario {
 		ev := gen.Pick(r, []event{
 			{Kind: "reindex", ID: x, N: 5 + len(sc.Steps)}, {Kind: "reindex", ID: x, N: 5 + len(sc.Steps)},
 			{Kind: "tomb", ID: x}, {Kind: "untomb", ID: members}, {Kind: "rename", ID: x, NewName: x + 10, One: r.Bool()},
+			{Kind: "truncmeta", ID: x},
 		})
 		if r.Chance(1, 3) {
 			st.Events = append(st.Events, event{Kind: "scan"})
@@ -812,6 +897,15 @@ func main() {
 		must(err)
 		defer os.RemoveAll(root)
 		materialise(root, sc.Init, scratch)
+		embedded := map[int]bool{}
+		for _, f := range sc.Init.Index {
+			if f.Compound && f.Sidecar > 0 {
+				embedded[f.Key] = true
+			}
+			if f.Sidecar > 0 {
+				w.Count(fmt.Sprintf("shards-with-sidecar-state-%d-compound-%v", f.Sidecar, f.Compound), 1)
+			}
+		}
 		for _, lo := range sc.Leftovers {
 			base := "unrelated"
 			if lo.Of >= 0 && lo.Of < len(sc.Init.Index) {
@@ -863,7 +957,7 @@ func main() {
 					w.Emit(c)
 					continue
 				}
-				if applyEvent(root, ev, scratch) {
+				if applyEvent(root, ev, scratch, embedded) {
 					rewrote = true
 					w.Count("event-"+ev.Kind, 1)
 				} else {
